@@ -142,12 +142,17 @@ func (c *Chunk) Close() {
 func (c *Chunk) gc() {
 	tracked := c.getTracked()
 	tick := c.getTick()
-	for key, td := range tracked {
+	for key := range tracked {
 		func() {
 			l := c.getSnapshotLock(key)
 			l.lock()
 			defer l.unlock()
-			if tick-td.tick >= c.timeout {
+			// the stream tracked under the key may have been replaced while the
+			// lock was waited for, judge the current one
+			c.mu.Lock()
+			td, ok := c.tracked[key]
+			c.mu.Unlock()
+			if ok && tick-td.tick >= c.timeout {
 				c.removeTempDir(td.first)
 				c.reset(key)
 			}
